@@ -187,7 +187,7 @@ func DecodeTypeSize(b []byte) (format.Type, int, error) {
 
 		// Data size
 		dataSize, m := decodeSize(b[:end])
-		if n < 0 {
+		if m < 0 {
 			return 0, 0, errors.New("decode struct: invalid data size")
 		}
 
